@@ -127,6 +127,9 @@ func MakeConfig(seed uint64, profile, tier string) SwarmConfig {
 		emph("commit", "lp", "lender", "govchaos")
 	case "C13":
 		emph("trader", "lp", "commit", "perp", "incentive")
+		if r.IntN(3) == 0 {
+			c.LatePoolAt = int64(15 + r.IntN(30))
+		}
 		if r.IntN(2) == 0 {
 			emph("govchaos") // Eden toggles, multipliers, reward portions while rewards accrue
 			c.EdenCycle = true
